@@ -194,6 +194,12 @@ def gen_tasks(tier, seed):
                     for fac in ([2.0, 1.0], [1.0, 3.0]):
                         tasks.append({**base, "node_flow": alt, "node_length": {v: 1 for v in G.nodes()},
                                       "kwargs": {**{a_: b_ for a_, b_ in kw.items() if a_ != "k"}, "k": 1, "length_attr": "length", "path_length_ranges": [[0, B], [B + 1, 1000]], "path_length_factors": fac}})
+            if len(routes) >= 2 and cls in ("kLeastAbsErrors", "kMinPathError", "kPathCover"):
+                # two constraints given as node lists that no single route covers together (taken from two different routes)
+                r1, r2 = routes[0], routes[-1]
+                c1, c2 = [r1[0], r1[1]], [r2[-2], r2[-1]]
+                if c1 != c2:
+                    tasks.append({**base, "node_flow": nf if "PathCover" not in cls else None, "constraints": [c1, c2], "kwargs": {**kw, "k": max(2, kw.get("k", 2)), "subpath_constraints": [c1, c2]}})
             if inner and cls == "MinFlowDecomp":
                 # paths may start / end at inner nodes: flow = routes of the enlarged route set (so a decomposition exists)
                 v, w = rng.choice(inner), rng.choice(inner)
